@@ -179,7 +179,7 @@ PROPS = {
     },
     "C12": {
         "modules": ["SxVerif.Props.C12"],
-        "components": ["cancel", "pipeline"],
+        "components": ["cancel", "pipeline", "e2esigint"],
         "trusted_base": [
             "modelled, not verified: Go channel / select / WaitGroup / context semantics as Model/Engine.lean (see C08); Ctrl-C = step `cancelCmd`, enabled in every state, cancelling command ctx and derived ctx together; SIGINT delivery itself is runtime",
             "packet side: the theorems C12_packet_no_panic / C12_packet_errc_closes are the C07 lemmas over Pipe.step (Proofs/ConcPacket*.lean); the pipeline component's cancel mode ties them to the code",
@@ -316,7 +316,7 @@ PROPS = {
     },
     "C14": {
         "modules": ["SxVerif.Props.C14"],
-        "components": ["json"],
+        "components": ["json", "e2ejson"],
         "trusted_base": [
             "modelled, not verified: easyjson v0.7.7 jwriter.Writer.String / Uint8 / Uint16 and go1.23 encoding/json appendString (escapeHTML on), strconv.AppendInt/AppendUint, utf8.DecodeRuneInString (Model/Json.lean; validated byte-for-byte on every run, incl. all 256 single bytes through both escapers)",
             "encoding/json's reflection walk (struct tags, omitempty, nil map/slice/pointer = null, Marshaler types such as time.Time, []byte = base64, float64 formatting) is NOT modelled: the harness computes the value tree it walks (goVal in harness/cmd/sxdiff/json.go, floatEncoder copied verbatim) and the model renders that tree (sorting Go maps); the theorems cover every well-formed tree",
